@@ -8,6 +8,12 @@
  */
 #include <plibsys.h>
 #include "mc.h"
+#include <netinet/in.h>
+#include <arpa/inet.h>
+#include <fcntl.h>
+#include <errno.h>
+#include <unistd.h>
+#include <sys/socket.h>
 #include "ksim.h"
 #include <errno.h>
 #include <signal.h>
@@ -190,6 +196,34 @@ static void h_dgram(int argc, char **argv)
     mc_outcome("received=%d", dg_n);
 }
 
+/* ------------------------------------------------------------------ pending connect: a listener whose accept queue is full never completes the handshake.
+ * A blocking connect with a time-out must report the time-out (not before it has elapsed, whatever interrupts the wait), a non-blocking one "in progress";
+ * neither may report a connection.  argument: b<timeout> | n */
+static void h_pending(int argc, char **argv)
+{
+    struct sockaddr_in sa; int ls, fill, fl, port = 5577, blocking = argc < 1 || argv[0][0] == 'b', tmo = (argc > 0 && argv[0][0] == 'b' && argv[0][1]) ? atoi(argv[0] + 1) : 50;
+    PSocket *c; PSocketAddress *a; PError *e = NULL; pboolean ok; unsigned long t0;
+    sigpipe_state(); FAM = 4;
+    memset(&sa, 0, sizeof sa); sa.sin_family = AF_INET; sa.sin_port = htons(port); sa.sin_addr.s_addr = htonl(INADDR_LOOPBACK);
+    ls = socket(AF_INET, SOCK_STREAM, 0);
+    if (ls < 0 || bind(ls, (struct sockaddr *)&sa, sizeof sa) < 0 || listen(ls, 0) < 0) mc_fail("C09", "setup", "listener set-up failed");
+    fill = socket(AF_INET, SOCK_STREAM, 0); fl = fcntl(fill, F_GETFL); fcntl(fill, F_SETFL, fl | O_NONBLOCK);
+    while (connect(fill, (struct sockaddr *)&sa, sizeof sa) < 0) { if (errno == EINTR) continue; if (errno == EINPROGRESS || errno == EALREADY) break; mc_fail("C09", "setup", "filler connect failed (errno %d)", errno); }
+    c = p_socket_new(P_SOCKET_FAMILY_INET, P_SOCKET_TYPE_STREAM, P_SOCKET_PROTOCOL_TCP, NULL); a = p_socket_address_new("127.0.0.1", (puint16)port);
+    p_socket_set_blocking(c, blocking ? TRUE : FALSE); p_socket_set_timeout(c, tmo);
+    t0 = ksim_clock_ms;
+    ok = p_socket_connect(c, a, &e);
+    if (ok || p_socket_is_connected(c)) mc_fail("C09", "pending-connect/reported-connected", "connect to a listener that never completes the handshake reported a connection (result %d, is_connected %d)", (int)ok, (int)p_socket_is_connected(c));
+    if (blocking) {
+        if (!e || p_error_get_code(e) != (pint)P_ERROR_IO_TIMED_OUT) { bad_error("client", "connect", e, 1); mc_fail("C09", "pending-connect/wrong-error", "blocking connect that cannot complete failed with code %d instead of a time-out", e ? p_error_get_code(e) : 0); }
+        if (ksim_clock_ms - t0 < (unsigned long)tmo) mc_fail("C09", "timed-out-early/connect", "connect reported a time-out after %lu ms of (virtual) time, the socket's time-out is %d ms", ksim_clock_ms - t0, tmo);
+    } else if (!e || p_error_get_code(e) != (pint)P_ERROR_IO_IN_PROGRESS) mc_fail("C09", "pending-connect/wrong-error", "non-blocking connect that cannot complete failed with code %d instead of in-progress", e ? p_error_get_code(e) : 0);
+    if (e) p_error_free(e);
+    p_socket_free(c); p_socket_address_free(a); close(fill); close(ls);
+    mc_nontrivial(0);
+    mc_outcome("ok");
+}
+
 /* ------------------------------------------------------------------ peer gone */
 static void *pg_client(void *arg) { PSocket *c = p_socket_new(fam(), P_SOCKET_TYPE_STREAM, P_SOCKET_PROTOCOL_TCP, NULL); (void)arg; if (!c || !p_socket_connect(c, laddr, NULL)) mc_fail("C09", "setup", "connect failed"); p_socket_free(c); return NULL; }
 static void h_peergone(int argc, char **argv)
@@ -210,5 +244,6 @@ static void h_peergone(int argc, char **argv)
     mc_outcome("errors=%d", errors);
 }
 
-static const McHarness HS[] = { {"stream", h_stream, "<msglen> <sendchunk> <recvbuf> <cli-blocking> <srv-blocking> <family>"}, {"dgram", h_dgram, "<recvbuf> <family>"}, {"peergone", h_peergone, ""}, {"halfclose", h_halfclose, ""} };
-int main(int argc, char **argv) { return mc_main(argc, argv, HS, 4); }
+static const McHarness HS[] = { {"stream", h_stream, "<msglen> <sendchunk> <recvbuf> <cli-blocking> <srv-blocking> <family>"}, {"dgram", h_dgram, "<recvbuf> <family>"}, {"peergone", h_peergone, ""}, {"halfclose", h_halfclose, ""},
+    {"pending", h_pending, "<b<timeout>|n>: connect to a listener that never completes the handshake"} };
+int main(int argc, char **argv) { return mc_main(argc, argv, HS, (int)(sizeof HS / sizeof HS[0])); }
